@@ -61,6 +61,9 @@ func (s *Script) outcome(step string) Outcome {
 type AuthIO struct {
 	sess *Session
 	conn *connState
+	n    int
+	// Dropped is set when the script dropped the connection inside the exchange.
+	Dropped bool
 }
 
 // ErrAuthAborted is returned when the client sends "*".
@@ -73,6 +76,20 @@ func (a *AuthIO) Challenge(challenge []byte) ([]byte, error) {
 
 // Raw sends an arbitrary reply line and reads one response line (decoded from base64).
 func (a *AuthIO) Raw(line string) ([]byte, error) {
+	a.n++
+	stepID := fmt.Sprintf("authstep#%d", a.n)
+	a.sess.Steps = append(a.sess.Steps, stepID)
+	switch o := a.conn.srv.Script.outcome(stepID); o.Kind {
+	case "stall":
+		a.conn.srv.stall(a.conn)
+		return nil, errors.New("stalled")
+	case "drop":
+		a.sess.Dropped = true
+		a.Dropped = true
+		return nil, errors.New("dropped")
+	case "reply":
+		line = fmt.Sprintf("%d %s", o.Code, o.Text)
+	}
 	a.conn.reply(line)
 	a.conn.inAuth = true
 	l, err := a.conn.readLine()
@@ -580,6 +597,21 @@ func (s *Server) serve(rawConn net.Conn, implicitTLS bool, sess *Session) {
 				sess.violate("starttls-injection", "bytes buffered after STARTTLS")
 			}
 			sess.TLSStarted = true
+			if ho := sc.outcome("tlshandshake"); ho.Kind == "stall" {
+				sess.Steps = append(sess.Steps, "tlshandshake")
+				s.stall(c)
+				return
+			} else if ho.Kind == "drop" {
+				sess.Steps = append(sess.Steps, "tlshandshake")
+				sess.Dropped = true
+				return
+			} else if ho.Kind == "garbage" {
+				sess.Steps = append(sess.Steps, "tlshandshake")
+				_, _ = tap.Write([]byte("this is not a TLS record\r\n"))
+				s.stall(c)
+				return
+			}
+			sess.Steps = append(sess.Steps, "tlshandshake")
 			tap.mu.Lock()
 			tap.on = true // keep tapping: a failed handshake may be followed by cleartext
 			tap.mu.Unlock()
@@ -650,9 +682,10 @@ func (s *Server) serve(rawConn net.Conn, implicitTLS bool, sess *Session) {
 					initial = []byte{}
 				}
 			}
-			final := s.Auth(mech, initial, &AuthIO{sess: sess, conn: c}, sess.TLSState)
-			if final == "" {
-				return // handler dropped the connection
+			aio := &AuthIO{sess: sess, conn: c}
+			final := s.Auth(mech, initial, aio, sess.TLSState)
+			if final == "" || aio.Dropped || sess.Stalled {
+				return // handler dropped the connection / the script stalled
 			}
 			final += " [" + step + "]"
 			sess.Replies[step] = final
